@@ -46,7 +46,14 @@ def all_queries(V):
     return qs
 
 
+_QCACHE = {}
+
+
 def pick_queries(V, rng, limit):
+    if limit is None:      # share one list object between all graphs on the same node set (memory)
+        if tuple(V) not in _QCACHE:
+            _QCACHE[tuple(V)] = all_queries(V)
+        return _QCACHE[tuple(V)]
     qs = all_queries(V)
     if limit is not None and len(qs) > limit:
         disc = [q for q in qs if q[0] == 1]
@@ -87,13 +94,32 @@ def planted(rng, n):
     return gr.from_kinds(n, [kinds[p] for p in gr.pairs(n)])
 
 
+def crossing(rng, n):
+    """two p.d. routes u -> x1 -> y -> .. -> c and u -> x2 -> y -> .. -> c crossing in y, random shields and noise"""
+    V = list(range(n))
+    rng.shuffle(V)
+    u, x1, x2, y, c = V[:5]
+    kinds = {}
+
+    def put(a, b, kind):
+        kinds[(min(a, b), max(a, b))] = kind if a < b else {"->": "<-", "<-": "->", "o->": "<-o", "<-o": "o->"}.get(kind, kind)
+    pd = ["->", "o->", "o-o"]
+    for a, b in ((u, x1), (u, x2), (x1, y), (x2, y), (y, c)):
+        put(a, b, rng.choice(pd))
+    put(rng.choice([x1, x2]), c, rng.choice(["<-", "<->", "--", "<-o"]))
+    for p in gr.pairs(n):
+        if p not in kinds:
+            kinds[p] = rng.choice(gr.MARK_KINDS[1:]) if rng.random() < 0.15 else "none"
+    return gr.from_kinds(n, [kinds[p] for p in gr.pairs(n)])
+
+
 def gen_cases(tier, rng):
     quick = tier == "quick"
     for n in (2, 3):
         for g in gr.enum_marks(n):
             yield {"kind": "marks%d" % n, "g": g, "qs": all_queries(g["V"])}
     kinds = gr.MARK_KINDS
-    for i in range(1200 if quick else 20000):
+    for i in range(1200 if quick else 12000):
         g = gr.from_kinds(4, [rng.choice(kinds) for _ in gr.pairs(4)])
         yield {"kind": "marks4s", "g": g, "qs": pick_queries(g["V"], rng, 240 if quick else None)}
     for i in range(400 if quick else 6000):
@@ -107,14 +133,41 @@ def gen_cases(tier, rng):
         n = rng.randint(4, 8)
         g = planted(rng, n)
         yield {"kind": "planted", "g": g, "qs": pick_queries(g["V"], rng, 150)}
+    for i in range(200 if quick else 3000):
+        n = rng.randint(5, 7)
+        g = crossing(rng, n)
+        plain = [[0, u, c, [], [], [], fc] for u in g["V"] for c in g["V"] if u != c for fc in (0, 1)]
+        yield {"kind": "crossing", "g": g, "qs": plain + pick_queries(g["V"], rng, 150)}
 
 
 def encode(case):
     return [0, gr.enc(case["g"]), case["qs"]]
 
 
+NONE_U = {"code": 0, "paths": [], "sfound": 0, "spath": []}
+NONE_D = dict(NONE_U, len=NONE_U)
+NOT_FOUND = {"found": False, "path": []}
+
+
 def decode(case, v):
-    return [{"code": r[0], "paths": sorted(r[1]), "sfound": r[2], "spath": r[3]} for r in v]
+    """per query a dict; the overwhelmingly common answer "no path, nothing found" is stored as 0 (memory)"""
+    out = []
+    for r in v:
+        d = {"code": r[0], "paths": sorted(r[1]), "sfound": r[2], "spath": r[3]}
+        if len(r) > 4:   # discriminating_path: the lenient reading ("a -> c or a o-> c" counts as a parent of c)
+            d["len"] = {"code": r[4], "paths": sorted(r[5]), "sfound": r[6], "spath": r[7]}
+        out.append(0 if d == NONE_U or d == NONE_D else d)
+    return out
+
+
+def m_at(case, model, i):
+    m = model[i]
+    return m if m != 0 else (NONE_D if case["qs"][i][0] == 1 else NONE_U)
+
+
+def r_at(impl, i):
+    r = impl["res"][i]
+    return r if r != 0 else NOT_FOUND
 
 
 # ------------------------------------------------------------------ implementation
@@ -138,7 +191,8 @@ def run_impl(case):
             else:
                 _, u, a, c = q
                 found, path, _expl = discriminating_path(P, lab(u), lab(a), lab(c), None)
-            res.append({"found": bool(found), "path": [inv(x) for x in path]})
+            r = {"found": bool(found), "path": [inv(x) for x in path]}
+            res.append(0 if r == NOT_FOUND else r)
         except Exception as e:  # noqa
             res.append({"exc": type(e).__name__})
     return {"res": res, "mutated": gr.snapshot(P) != before}
@@ -146,6 +200,7 @@ def run_impl(case):
 
 # ------------------------------------------------------------------ comparison
 PRIORITY = ["model-soundness", "model-vs-oracle", "argument-mutated", "invalid-path", "exception", "not-found"]
+KNOWN_KEY_A = "discriminating_path:a-with-circle-mark-accepted-as-parent-of-c"
 
 
 def problems(case, impl, model):
@@ -155,10 +210,12 @@ def problems(case, impl, model):
         return [(-1, "exception")]
     if impl["mutated"]:
         out.append((-1, "argument-mutated"))
-    for i, (q, r, m) in enumerate(zip(case["qs"], impl["res"], model)):
+    for i, q in enumerate(case["qs"]):
+        r, m = r_at(impl, i), m_at(case, model, i)
         if m["sfound"] and m["spath"] not in m["paths"]:
             out.append((i, "model-soundness"))
-        if q[0] == 1 and m["sfound"] != m["code"]:
+        if q[0] == 1 and (m["sfound"] != m["code"] or m["len"]["sfound"] != m["len"]["code"]
+                          or (m["len"]["sfound"] and m["len"]["spath"] not in m["len"]["paths"])):
             out.append((i, "model-vs-oracle"))
         if m["code"] == 2:
             if r.get("exc") != "RuntimeError":
@@ -190,16 +247,28 @@ def classify(case, impl, model):
     if not ps:
         return None
     faithful = case.get("_lab", "int") == "int" and all(0 <= v <= 7 for v in case["g"]["V"])
+    keys = set()
     for i, c in ps:
-        if c != "not-found" or i < 0 or case["qs"][i][0] != 0:
+        if i < 0:
             return None
-        if faithful and model[i]["sfound"]:
+        q, r, m = case["qs"][i], r_at(impl, i), m_at(case, model, i)
+        if q[0] == 0 and c == "not-found" and not (faithful and m["sfound"]):
+            keys.add(KNOWN_KEY)
+        elif (q[0] == 1 and c == "invalid-path" and r["path"] in m["len"]["paths"]
+              and not gr_is_parent(case["g"], q[2], q[3])):
+            # found a path that is discriminating except that a o-> c (circle at a) was taken for "a is a parent of c"
+            keys.add(KNOWN_KEY_A)
+        else:
             return None
-    return KNOWN_KEY
+    return min(keys)   # a batched case may show both recorded classes; every problem in it is a recorded one
+
+
+def gr_is_parent(g, a, c):
+    return [a, c] in g["D"] and [c, a] not in g["C"] and [c, a] not in g["D"]
 
 
 def nontrivial(case, model):
-    codes = {m["code"] for m in model}
+    codes = {0 if m == 0 else m["code"] for m in model}
     return 0 in codes and 1 in codes
 
 
@@ -223,6 +292,25 @@ def shrink(case):
             yield dict(case, g=h, qs=keep)
 
 
-LEVEL_TEXT = "placeholder"
-LEVEL_NOTE = "placeholder"
-TECHNIQUE = "placeholder"
+TECHNIQUE = ("Coq proof (definitional path enumerations = definitions, deciders reflect existence, search models sound, "
+             "repaired discriminating_path search complete - all unbounded; incompleteness of the one-explored-set "
+             "uncovered_pd_path search by a kernel-computed witness) + extracted-model correspondence: every returned path "
+             "checked against the proved enumeration, found against the proved decider")
+LEVEL_TEXT = ("proof, all unbounded (no _bounded_n clause): c18_updp_paths_spec / c18_disc_paths_spec (the enumerations the "
+              "harness validates returned paths against are exactly updp_def / disc_def), c18_updp_valid_b_spec / "
+              "c18_disc_valid_b_spec (checkers), c18_spec_updp_dec_spec / c18_spec_disc_dec_spec (deciders <-> a path "
+              "exists), c18_pd_edge_words (edge test = wording of the property), c18_updp_sound / c18_disc_sound (every path "
+              "returned by the search models satisfies the definition), c18_disc_complete / c18_disc_search_iff (the "
+              "repaired discriminating_path search finds a path whenever one exists). updp_complete is FALSE for the "
+              "breadth-first search with one global explored set: c18_updp_complete_refuted (witness by vm_compute) - "
+              "recorded as known finding, the order-faithful model updp_search reproduces found=False exactly. "
+              "Only by correspondence (tie K): that the implementation computes these functions - exhaustive for all "
+              "MARKS(n) n<=3 with all option combinations, sampled n=4,5 with all / sampled combinations, random and "
+              "planted graphs n<=8")
+LEVEL_NOTE = ("the theorems are about the repaired behaviour (fixes/C18-1..6); on the unpatched tree the check reports "
+              "VIOLATIONs. Two recorded deviations remain after the patches: uncovered_pd_path incompleteness (needs a "
+              "(prev,node)-state search) and discriminating_path accepting a o-> c as 'a is a parent of c' (pinned test "
+              "test_discriminating_path asserts it; recognised through the lenient oracle par_of g true, for which the "
+              "same theorems hold). Interpretation decisions: forbid_node constrains the first node taken by the search; "
+              "the given first/second edge must itself be potentially directed; second_node = c means the path [u, c]; "
+              "'parent' = PAG.parents (tail at the parent). max_path_length other than None is not modelled.")
